@@ -8,8 +8,8 @@ import vlib
 
 TTL_MS, UNIT_MS, MARGIN_MS = 300, 120, 25        # ttl = 2.5 units: no event ever falls within 60 ms of a deadline
 BACKENDS = ["memory", "redis", "hybrid-redis", "hybrid-shared-mem", "hybrid-mem", "hybrid-persist"]
-PTR = {"memory": 1, "hybrid-mem": 1, "hybrid-shared-mem": 1, "hybrid-persist": 1, "redis": 0, "hybrid-redis": 0}     # Get hands back the stored Go value
-INCL = {"memory": 1, "hybrid-mem": 1, "hybrid-shared-mem": 1, "hybrid-persist": 1, "redis": 0, "hybrid-redis": 0}    # readable at exactly the deadline (never observed)
+PTR = {"memory": 1, "hybrid-mem": 1, "hybrid-shared-mem": 1, "hybrid-persist": 1, "hybrid-gated-shared": 1, "redis": 0, "hybrid-redis": 0}     # Get hands back the stored Go value
+INCL = {"memory": 1, "hybrid-mem": 1, "hybrid-shared-mem": 1, "hybrid-persist": 1, "hybrid-gated-shared": 1, "redis": 0, "hybrid-redis": 0}    # readable at exactly the deadline (never observed)
 
 CONNECT, AUTHOK, AUTHFAIL, KICK, HEARTBEAT, CLOSE, TICK, STALE, SEND, SENDRACE, SREG, SUNREG, SREFRESH, AUTHLOST = 0, 1, 2, 3, 4, 5, 6, 7, 8, 9, 10, 11, 12, 13
 SHUTDOWN, FAULT = 14, 15
@@ -342,7 +342,8 @@ def conc_cases(ctx, thorough):
     for sched in rng.sample(all420, 40):
         out.append(mkc("hybrid-redis", old, moving, sched, 3, [x], "lookup||move"))
     # the writers' own windows: all 15 interleavings each
-    for backend in ("memory", "redis", "hybrid-redis", "hybrid-shared-mem", "hybrid-mem", "hybrid-persist"):
+    # "hybrid-gated-shared": the gate sits in the SHARED tier under one tiered-storage instance per invocation (per node)
+    for backend in ("memory", "redis", "hybrid-redis", "hybrid-shared-mem", "hybrid-mem", "hybrid-persist", "hybrid-gated-shared"):
         for sched in multiset_perms([4, 2]):
             out.append(mkc(backend, old, [[TH_UNREG, 1, 1], [TH_REG, 2, 2, x, 1]], sched, 2, [x], "unregister||register:exhaustive"))
             out.append(mkc(backend, old, [[TH_REFRESH, 1, 1], [TH_REG, 2, 2, x, 1]], sched, 2, [x], "refresh||register:exhaustive"))
@@ -424,7 +425,7 @@ def state_phases(ctx, thorough):
     x = 7
     old = [[4, 1, 1, x]]
     out = []
-    for backend in ("memory", "redis", "hybrid-redis", "hybrid-shared-mem", "hybrid-persist"):
+    for backend in ("memory", "redis", "hybrid-redis", "hybrid-shared-mem", "hybrid-persist", "hybrid-gated-shared"):
         for sched in multiset_perms([2, 2]):
             out.append(mkc(backend, old, [[6, 1, 1, x], [4, 2, 2, x]], sched, 2, [x], "state:disconnect||connect:exhaustive"))
             out.append(mkc(backend, old, [[5, 1, 1, x], [4, 2, 2, x]], sched, 2, [x], "state:heartbeat||connect:exhaustive"))
@@ -453,6 +454,30 @@ def conc_value(c, o):
     return [list(o["variant"]), [PTR[c["backend"]], INCL[c["backend"]]], 3600000, 2, list(c["clients"]),
             [[pad(op) for op in c["setup"]], [pad(t) for t in c["threads"]], list(o["sched"])],
             [[(list(r) if r else None) for r in o["results"]], [[list(a) for a in node] for node in o["final"]]]]
+
+
+def virtual_cases(ctx, thorough):
+    """lifetimes with a fractional-second part (2.5 s) and heartbeats every 2.2 s, on the Redis-backed backends with miniredis'
+    clock advanced instead of sleeping: a renewal that keeps only whole seconds of the ttl lets the index lapse between two
+    on-time heartbeats"""
+    rng = ctx.rng
+    x = 7
+    out = []
+
+    def v(mode, backend, ops, nodes, clients, tag):
+        c = mk(mode, backend, ops, nodes, clients, tag)
+        c.update({"ttl_ms": 2500, "unit_ms": 1100, "virtual": True})
+        return c
+    for backend in ("redis", "hybrid-redis"):
+        out.append(v("store", backend, [[SREG, 1, 1, x, 1]] + [[TICK, 2], [SREFRESH, 1, 1]] * 4 + [[TICK, 2], [TICK, 1]], 2, [x], "virtual:store-refresh-2.2s"))
+        out.append(v("session", backend, [[CONNECT, 1, 1], [AUTHOK, 1, 1, x, 0]] + [[TICK, 2], [HEARTBEAT, 1, 1]] * 4 +
+                     [[CONNECT, 2, 2], [AUTHOK, 2, 2, x, 0], [TICK, 2], [HEARTBEAT, 2, 2], [CLOSE, 1, 1], [TICK, 2], [HEARTBEAT, 2, 2], [TICK, 2], [CLOSE, 2, 2]],
+                     2, [x], "virtual:session-heartbeat-2.2s"))
+        for _ in range(30 if thorough else 4):
+            nodes = rng.choice([2, 3])
+            out.append(v("session", backend, session_history(rng, nodes, [1, 2], rng.randrange(10, 24)), nodes, [1, 2], "virtual:random"))
+            out.append(v("store", backend, store_history(rng, 2, [1, 2], rng.randrange(6, 16)), 2, [1, 2], "virtual:random"))
+    return out
 
 
 def gen_cases(ctx, thorough):
@@ -542,7 +567,7 @@ def run(ctx, only_cases=None):
                             extra_obligations=SIDE_CONDITIONS)
     except vlib.Broken as b:
         broken = b   # keep going: evaluate the predicate on the real code first
-    all_cases = only_cases if only_cases is not None else load_corpus() + gen_cases(ctx, thorough) + conc_cases(ctx, thorough) + state_phases(ctx, thorough) + realauth_cases(ctx, thorough)
+    all_cases = only_cases if only_cases is not None else load_corpus() + gen_cases(ctx, thorough) + virtual_cases(ctx, thorough) + conc_cases(ctx, thorough) + state_phases(ctx, thorough) + realauth_cases(ctx, thorough)
     env = {"VERIF_C08_PAR": "32", "VERIF_REPO": vlib.REPO}
     all_outs = vlib.run_harness(binary, all_cases, timeout=1500, env=env)
     variant = all_outs[0]["variant"] if all_outs else None
